@@ -1179,6 +1179,8 @@ func (f *fragment) min(filter *Row, bitDepth uint) (min int64, count uint64, err
 
 // minUnsigned the lowest value without considering the sign bit. Filter is required.
 func (f *fragment) minUnsigned(filter *Row, bitDepth uint) (min int64, count uint64) {
+	// With no value planes every column in the filter holds the value 0.
+	count = filter.Count()
 	for i := int(bitDepth - 1); i >= 0; i-- {
 		row := filter.Difference(f.row(uint64(bsiOffsetBit + i)))
 		count = row.Count()
@@ -1221,6 +1223,8 @@ func (f *fragment) max(filter *Row, bitDepth uint) (max int64, count uint64, err
 
 // maxUnsigned the highest value without considering the sign bit. Filter is required.
 func (f *fragment) maxUnsigned(filter *Row, bitDepth uint) (max int64, count uint64) {
+	// With no value planes every column in the filter holds the value 0.
+	count = filter.Count()
 	for i := int(bitDepth - 1); i >= 0; i-- {
 		row := f.row(uint64(bsiOffsetBit + i)).Intersect(filter)
 		count = row.Count()
